@@ -57,8 +57,8 @@ func (s *ClientServerStream) Close(err error) {
 // context error keeps its meaning: grpc-go's server turns it into the status DeadlineExceeded / Canceled.
 // (Any other error that is not a status reads as Unknown with the error's text either way.)
 func handlerErr(err error) error {
-	if err == context.DeadlineExceeded || err == context.Canceled {
-		return status.FromContextError(err).Err()
+	if _, isStatus := status.FromError(err); !isStatus && (errors.Is(err, context.DeadlineExceeded) || errors.Is(err, context.Canceled)) {
+		return status.FromContextError(err).Err() // also when the handler added context to it: the text is kept
 	}
 	return err
 }
